@@ -82,10 +82,12 @@ FreeOwn(m, o, h) == \E r \in m : r.off = o /\ r.h = h
 Pal(c) == c = "-" \/ Allowed(cfg.world, c)
 \* ------------------------------------------------------------------------------ unary
 BeginUnary(rq, res, out) ==
-  /\ st.pc = "idle" /\ rq \in ReqC \cup {"-"} /\ res \in ResC /\ out \in {"ok", "err", "cb"}
+  /\ st.pc = "idle" /\ rq \in ReqC \cup {"-"} /\ res \in ResC /\ out \in {"ok", "err", "cb", "unk"}
   /\ out = "cb" => rq = "-"
   /\ Pal(rq) /\ Pal(res)
-  /\ out = "err" => res = (CHOOSE r \in ResC : TRUE)
+  \* "err": the method raises; "unk": the request names a method the server does not have (rejected before dispatch,
+  \* but after the request batch -- possibly a shm pointer -- has been decoded)
+  /\ out \in {"err", "unk"} => res = (CHOOSE r \in ResC : Allowed(cfg.world, r))
   /\ LET w == IF rq = "-" THEN Inline(mem) ELSE WriteToShm(mem, rq, "c2s") IN
      /\ mem' = w.m
      /\ st' = [Idle EXCEPT !.pc = "u_srv", !.k = "u", !.ci = rq, !.co = res, !.fail = out, !.io = w.off]
